@@ -2,7 +2,7 @@
 // every interposed atomic operation of the unmodified headers. libstdc++'s shared_ptr counter is NOT interposed:
 // copying / dropping a handle is part of the thread's current plain segment.
 //
-//   case <id> sf <T> <mode> [<arg>]      T = int | counted | void
+//   case <id> sf <T> <mode> [<arg>]      T = int | counted (instance counters; its move marks the source: a moved-from value prints `moved`) | void
 //                                        mode = pf  shared_future(fn(promise))          -- promise handed to the resolver inside the constructor
 //                                               ff  shared_future(fn -> future<T>)      -- fn returns a pending future
 //                                               gp  shared_future(); get_promise()      -- late initialisation of a default-constructed object
@@ -51,7 +51,7 @@ struct counted {
     int v;
     counted(int x) : v(x) { ++ctor; }
     counted(const counted &o) : v(o.v) { ++ctor; }
-    counted(counted &&o) : v(o.v) { ++ctor; }
+    counted(counted &&o) : v(o.v) { ++ctor; o.v = -1; }   // move-sensitive: a moved-from value prints `moved`
     ~counted() { ++dtor; }
 };
 template <typename T> struct P;
@@ -61,7 +61,7 @@ template <> struct P<int> {
 };
 template <> struct P<counted> {
     static counted make(int v) { return counted(v); }
-    static std::string show(counted &v) { return "v:" + std::to_string(v.v); }
+    static std::string show(counted &v) { return v.v < 0 ? std::string("moved") : "v:" + std::to_string(v.v); }
 };
 
 // ---- observing the life time of the shared state ------------------------------------------------------------
@@ -214,10 +214,10 @@ struct Scn {
     }
 
     void take(promise<T> &p) {
-        S().name_obj(&p._owner, "tmp");
-        S().name_obj(&p._owner.raw()->_awaiter, "slot");
+        S().name_obj(&p.VN_promise__owner, "tmp");
+        S().name_obj(&p.VN_promise__owner.raw()->VN_future_common__awaiter, "slot");
         prom.emplace(std::move(p));
-        S().name_obj(&prom->_owner, "owner");
+        S().name_obj(&prom->VN_promise__owner, "owner");
         published = true;
     }
 
@@ -245,7 +245,7 @@ struct Scn {
                                  observe([&]() -> decltype(auto) { return sf->value(); });
             log(before);
             sf->init_if_needed();
-            track_state(sf->_ptr.get());
+            track_state(sf->VN_shared_future__ptr.get());
             for (std::size_t i = 1; i < threads.size(); i++)
                 if (threads[i][1] == "h") hs[i].push_back(*sf);
             {
@@ -262,9 +262,9 @@ struct Scn {
         } else {
             sf.emplace([&] { return future<T>::set_exception(std::make_exception_ptr(test_exc(arg))); });
         }
-        S().name_obj(&sf->_ptr->_awaiter, "slot");
+        S().name_obj(&sf->VN_shared_future__ptr->VN_future_common__awaiter, "slot");
         if (mode != "ip") {
-            track_state(sf->_ptr.get());
+            track_state(sf->VN_shared_future__ptr.get());
             for (std::size_t i = 1; i < threads.size(); i++)
                 if (threads[i][1] == "h") hs[i].push_back(*sf);
         }
